@@ -1017,6 +1017,12 @@ def table_attr(it, t, name):
             t2 = Table(t.name + "'reindexed", t.space, dict(t.cols), new, dict(t.optional))
             return t2
         return Native(set_index, name="set_index", pure=False)
+    if name == "drop_duplicates":
+        def drop_duplicates(it, subset=None, keep="first", **k):
+            if not (isinstance(subset, (list, tuple)) and len(subset) == 1 and isinstance(subset[0], str) and keep in ("first", "last")):
+                raise EngineError("drop_duplicates: only a single key column with keep='first' / 'last' is modelled")
+            return tabletheory.KeyedRows(t, subset[0], keep)
+        return nat(drop_duplicates)
     if name == "merge":
         return nat(lambda it, right, **k: tabletheory.merge(it, t, right, **k))
     if name == "query":
